@@ -612,11 +612,14 @@ def streams(tier, rng):
     e2e_cases = [f"{a} {r}" for a in ATTRS for r in (0, 1)]
     # both flags on one command line, in both orders (and three alternating): the LAST one is the choice
     # (same flag twice and DIVAN_SORT x --sortr are clap usage errors on the unchanged tree: not generated)
+    # the choice made through the environment only (DIVAN_SORT / DIVAN_SORTR, no flag)
+    e2e_cases += [f"{a} {r} ev:{'sortr' if r else 'sort'}={a}" for a in ATTRS for r in (0, 1)]
     e2e_cases += list(corpus.get("e2e", []))
     seen_cl = set(e2e_cases)
     n_cl = 10 if quick else 60
     tries = 0
-    while len(e2e_cases) < 6 + n_cl and tries < 1000:
+    n_fixed = len(e2e_cases)
+    while len(e2e_cases) < n_fixed + n_cl and tries < 1000:
         tries += 1
         k = rng.choice([2, 2, 3])
         first = rng.choice(["sort", "sortr"])
